@@ -30,6 +30,26 @@ def main():
     sh('git', '-C', WT, 'checkout', '--', '.')
     sh('git', '-C', WT, 'checkout', '--detach', sh('git', '-C', '/repo', 'rev-parse', 'HEAD').stdout.strip())
     results = {}
+    extra = []
+    while '--patch' in args:
+        i = args.index('--patch'); extra.append(os.path.abspath(args[i + 1])); del args[i:i + 2]
+    for patch in extra:
+        r = sh('git', '-C', WT, 'apply', patch)
+        if r.returncode:
+            print(f'{patch}: patch does not apply: {r.stderr[-200:]}')
+            continue
+        try:
+            for prop in props_override or []:
+                t0 = time.time()
+                env = {**os.environ, 'VERIF_REPO': WT, 'VERIF_EVIDENCE_DIR': '/tmp/verif-mutant-evidence'}
+                p = sh(os.path.join(HERE, 'vcheck'), prop, '--tier', tier, cwd=HERE, env=env)
+                verdict = {0: 'HELD', 1: 'VIOLATION', 2: 'INCONCLUSIVE'}.get(p.returncode, f'rc{p.returncode}')
+                mechs = sorted({ln.split('mechanism=')[1].split(' ::')[0] for ln in p.stdout.splitlines() if 'mechanism=' in ln})
+                print(f'{patch[-40:]:52s} {prop} {verdict:12s} {time.time() - t0:6.1f}s {mechs[:3]}', flush=True)
+        finally:
+            sh('git', '-C', WT, 'checkout', '--', '.')
+    if extra:
+        return 0
     for patch in sorted(glob.glob(os.path.join(HERE, 'mutants', '*.patch')) + glob.glob(os.path.join(HERE, 'seeded', '*', 'patch.diff'))):
         name = os.path.basename(patch)[:-6] if patch.endswith('.patch') else 'seeded/' + os.path.basename(os.path.dirname(patch))
         if args and not any(a in name for a in args):
